@@ -94,7 +94,7 @@ def json_candidates(fmt, doc):
             v = p["variants"][uid]
             out += [(var + [k], DELETE) for k in ("id", "uid", "name", "type", "arches", "paths")]
             out += [(var + ["id"], x) for x in ["a-b", "a b", "", None, "x.y", "S\u00e9rveur", "Server\u0662"] + rules.BAD_VARIANT_IDS[::5]] + [(var + ["name"], x) for x in ["", None, 5]]
-            out += [(var + ["type"], x) for x in ["bogus", None, "Variant", ""]] + [(var + ["arches"], x) for x in [[], None, 5]]
+            out += [(var + ["type"], x) for x in ["bogus", None, "Variant", ""]] + [(var + ["arches"], x) for x in [[], None, 5, "x86_64", ""]]      # a string is not a list of arches
             out += [(var + ["uid"], "X" + v["uid"]), (var + ["uid"], v["uid"] + "x")]
             out += [(var + ["uid"], o) for o in sorted(p["variants"]) if o != uid]          # claims the UID of another variant
             parents = [u for u in p["variants"] if uid.startswith(u + "-") and uid[len(u) + 1:] in p["variants"][u].get("variants", [])]
@@ -204,7 +204,9 @@ def ini_candidates(ini):
             out += [((sec, opt), "%s ;%s" % (ini[sec][opt], tail)) for tail in ("0", " see below")] + [((sec, opt), "%s #x" % ini[sec][opt])]
     for sec in sorted(ini):
         if sec.startswith("variant-") or sec.startswith("addon-"):
-            out += [((sec, "type"), "%s ;bogus" % ini[sec].get("type", "variant"))]        # (ids and arches are free-form text: 'Server ;x' is an id)
+            out += [((sec, "type"), "%s ;bogus" % ini[sec].get("type", "variant"))]
+            # [addon-*] sections describe addons, [variant-*] sections everything else: a type that belongs into the other kind of section
+            out.append(((sec, "type"), "variant" if sec.startswith("addon-") else "addon"))        # (ids and arches are free-form text: 'Server ;x' is an id)
     for sec in sorted(ini):
         if sec.startswith("variant-") or sec.startswith("addon-"):
             out += [((sec, None), DELETE)] + [((sec, k), DELETE) for k in ("id", "uid", "name", "type")]
